@@ -26,3 +26,62 @@ Definition c07_case {L} (dec : L -> bytes -> res L) (zero : L) (show : L -> list
   | Ok v => match enc v with Some e => Some (e, show v) | None => None end
   | _ => None
   end.
+
+(* ---------- connection-level entry points ---------- *)
+From BMC Require Import Serialize SpecRequests Packet Conn Handshake SpecBmc.
+
+Definition mk_session (integ : N) (k1 aeskey : bytes) (local remote : N) : option session :=
+  match integrity_sign integ k1 with
+  | Some sg => Some {| s_local_id := local; s_remote_id := remote; s_sign := sg;
+                       s_enc := aes128_encrypt_block aeskey; s_dec := aes128_decrypt_block aeskey |}
+  | None => None
+  end.
+
+Definition mk_active (integ conf : N) (k1 k2 : bytes) (console bmc : N) : Bmc.active :=
+  {| Bmc.a_console_id := console; Bmc.a_bmc_id := bmc; Bmc.a_integ := integ; Bmc.a_conf := conf;
+     Bmc.a_sik := []; Bmc.a_k1 := k1; Bmc.a_k2 := k2 |}.
+
+Definition outcome_code (o : outcome) : N :=
+  match o with OFinal _ => 0 | OExpired => 1 | OTransport => 2 | OSerialize => 3 | OFault => 4 end.
+
+Definition show_lanreq (r : SpecParse.lanreq) : list tok :=
+  [TN (SpecParse.lr_rsaddr r); TN (SpecParse.lr_netfn r); TN (SpecParse.lr_rslun r); TN (SpecParse.lr_rqaddr r);
+   TN (SpecParse.lr_rqseq r); TN (SpecParse.lr_rqlun r); TN (SpecParse.lr_cmd r);
+   TN (match SpecParse.lr_body r with Some b => b | None => 256 end); TY (SpecParse.lr_data r)].
+
+(* the specification's reading of a session-less datagram carrying an IPMI request *)
+Definition spec_sessionless (dg : bytes) : option (list tok) :=
+  match SpecParse.datagram dg with
+  | Some w =>
+      if (SpecParse.w_ptype w =? 0) && negb (SpecParse.w_encrypted w) && negb (SpecParse.w_authenticated w)
+      then match SpecParse.lan_request (SpecParse.w_payload w) with
+           | Some r => Some ([TN (SpecParse.w_id w); TN (SpecParse.w_seq w)] ++ show_lanreq r)
+           | None => None
+           end
+      else None
+  | None => None
+  end.
+(* ... carrying a session-setup payload *)
+Definition spec_setup (dg : bytes) : option (N * N * N * bytes) :=
+  match SpecParse.datagram dg with
+  | Some w => if negb (SpecParse.w_encrypted w) && negb (SpecParse.w_authenticated w)
+              then Some (SpecParse.w_ptype w, SpecParse.w_id w, SpecParse.w_seq w, SpecParse.w_payload w) else None
+  | None => None
+  end.
+
+Definition show_request (r : request) : list tok :=
+  match r with
+  | RqNone => [TN 0]
+  | RqAuthCaps e c m => [TN 1; TB e; TN c; TN m]
+  | RqCipherSuites c p i => [TN 2; TN c; TN p; TN i]
+  | RqSessionInfo i h d => [TN 3; TN i; TN h; TN d]
+  | RqSetPriv l => [TN 4; TN l]
+  | RqCloseSession i h => [TN 5; TN i; TN h]
+  | RqChassisControl c => [TN 6; TN c]
+  | RqGetSDR a b c d => [TN 7; TN a; TN b; TN c; TN d]
+  | RqSensorReading n => [TN 8; TN n]
+  | RqDCMICaps p => [TN 9; TN p]
+  | RqPowerReading m p => [TN 10; TN m; TN p]
+  | RqDCMISensorInfo a b c d => [TN 11; TN a; TN b; TN c; TN d]
+  | RqRaw b => [TN 12; TY b]
+  end.
